@@ -447,6 +447,7 @@ pub fn evaluate(c: &CliCheck) -> Verdict {
                             peer: peer.clone(),
                             fault: Fault::None,
                             pregrow: None,
+                            far_move: None,
                             junk: 1,
                             alloc: AllocPlan::OFF,
                             hash_seed: 0,
